@@ -225,6 +225,7 @@ type c19Seen struct {
 // c19Issued is one Stub.UpdateContainers call as the issuing goroutine saw it.
 type c19Issued struct {
 	Tag       string   `json:"tag,omitempty"` // "" for empty lists
+	Kind      string   `json:"kind"` // updater | unstarted | configure | synchronize | starting | racestop | afterstop
 	Where     string   `json:"where"`
 	Plugin    string   `json:"plugin"`
 	Start     int64    `json:"start"`
@@ -236,7 +237,6 @@ type c19Issued struct {
 	Panic     string   `json:"panic,omitempty"`
 	Blocked   bool     `json:"blocked,omitempty"`
 	NoService bool     `json:"no_service,omitempty"`
-	Slow      bool     `json:"slow,omitempty"` // an attempt on the unstarted stub ran into the watchdog, a later one did not
 
 	call   C19Call
 	sent   []*api.ContainerUpdate
@@ -251,7 +251,17 @@ type c19Span struct {
 	Err   string `json:"err,omitempty"`
 }
 
+type c19Reg struct {
+	Name     string `json:"name"`
+	Idx      string `json:"idx"`
+	Late     bool   `json:"late,omitempty"`
+	StartErr string `json:"start_err,omitempty"`
+	Refused  bool   `json:"refused,omitempty"`
+	TimedOut bool   `json:"timed_out,omitempty"`
+}
+
 type c19Hist struct {
+	Plugins  []*c19Reg    `json:"plugins"`
 	Seen     []c19Seen    `json:"update_fn_calls"`
 	Issued   []*c19Issued `json:"issued"`
 	Requests []c19Span    `json:"requests"`
@@ -353,14 +363,54 @@ func (x *c19Exec) handler(name, what, tag string) {
 	x.mu.Unlock()
 }
 
-func (x *c19Exec) newPlugin(i int, idx string) (*fx.Plugin, chan struct{}, chan struct{}) {
+
+const (
+	kUpdater   = "updater"
+	kUnstarted = "unstarted"
+	kConfigure = "configure"
+	kSync      = "synchronize"
+	kStarting  = "starting"
+	kRaceStop  = "racestop"
+	kAfterStop = "afterstop"
+)
+
+// c19Live is a connected plugin.
+type c19Live struct {
+	spec C19Plugin
+	reg  *c19Reg
+	p    *fx.Plugin
+	ok   bool
+}
+
+func (x *c19Exec) newPlugin(i int, spec C19Plugin) (*c19Live, chan struct{}, chan struct{}) {
 	name := fmt.Sprintf("q%d", i)
 	synced, closed := make(chan struct{}, 1), make(chan struct{}, 1)
-	p := &fx.Plugin{Name: name, Idx: idx}
+	p := &fx.Plugin{Name: name, Idx: spec.Idx}
+	l := &c19Live{spec: spec, p: p, reg: &c19Reg{Name: name, Idx: spec.Idx, Late: spec.Late}}
+	p.OnConfigure = func(context.Context, string, string, string) (api.EventMask, error) {
+		// the plugin has registered; its Start() is waiting for this handler to return
+		for ci, call := range spec.InConfigure {
+			x.issue(p.Stub, name, kConfigure, fmt.Sprintf("g%dc%d", i, ci), call, (i+ci)%2 == 0)
+		}
+		if len(spec.DuringStart) > 0 {
+			done := make(chan struct{})
+			go func() { // another goroutine, while this handler holds Configure (and thereby Start) back
+				defer close(done)
+				for ci, call := range spec.DuringStart {
+					x.issue(p.Stub, name, kStarting, fmt.Sprintf("d%dc%d", i, ci), call, false)
+				}
+			}()
+			<-done // every call has its own watchdog
+		}
+		return 0, nil
+	}
 	p.OnSynchronize = func(context.Context, []*api.PodSandbox, []*api.Container) ([]*api.ContainerUpdate, error) {
 		select {
 		case synced <- struct{}{}:
 		default:
+		}
+		for ci, call := range spec.InSync {
+			x.issue(p.Stub, name, kSync, fmt.Sprintf("y%dc%d", i, ci), call, (i+ci)%2 == 1)
 		}
 		return nil, nil
 	}
@@ -390,12 +440,21 @@ func (x *c19Exec) newPlugin(i int, idx string) (*fx.Plugin, chan struct{}, chan 
 		x.handler(name, evName(int32(e)), tagOf(pod, ct))
 		return nil
 	}
-	return p, synced, closed
+	return l, synced, closed
 }
 
-// issue performs one UpdateContainers call on s from the calling (non-handler) goroutine.
-func (x *c19Exec) issue(s stub.Stub, plugin, where string, call C19Call, unstarted, nilForEmpty bool) {
-	is := &c19Issued{Where: where, Plugin: plugin, N: len(call.Updates), call: call}
+func (x *c19Exec) connect(i int, spec C19Plugin) *c19Live {
+	l, synced, closed := x.newPlugin(i, spec)
+	cn := connectAndWait(x.rt, l.p, synced, closed, false)
+	l.reg.StartErr, l.reg.Refused, l.reg.TimedOut = shortErr(cn.startErr), cn.refused, cn.timedOut
+	l.ok = cn.startErr == nil && !cn.refused && !cn.timedOut
+	return l
+}
+
+// issue performs one UpdateContainers call on s. Every kind but the plain updaters' runs
+// under a 10 s watchdog (the call is abandoned, not cancelled, when it trips).
+func (x *c19Exec) issue(s stub.Stub, plugin, kind, where string, call C19Call, nilForEmpty bool) {
+	is := &c19Issued{Kind: kind, Where: where, Plugin: plugin, N: len(call.Updates), call: call}
 	if len(call.Updates) > 0 {
 		is.Tag = fmt.Sprintf("k%d%s", x.no, where)
 	}
@@ -408,7 +467,7 @@ func (x *c19Exec) issue(s stub.Stub, plugin, where string, call C19Call, unstart
 		arg = nil // nil and empty lists are both "no updates"
 	}
 	x.mu.Lock()
-	if is.Tag != "" && !unstarted {
+	if is.Tag != "" && kind != kUnstarted {
 		x.plans[is.Tag] = call
 	}
 	x.issued = append(x.issued, is)
@@ -419,41 +478,31 @@ func (x *c19Exec) issue(s stub.Stub, plugin, where string, call C19Call, unstart
 		err    error
 		pan    string
 	}
-	attempt := func() (result, bool) {
-		ch := make(chan result, 1)
-		go func() {
-			var r result
-			defer func() {
-				if p := recover(); p != nil {
-					r.pan = fmt.Sprint(p)
-				}
-				ch <- r
-			}()
-			r.failed, r.err = s.UpdateContainers(arg)
-		}()
-		if !unstarted {
-			return <-ch, true
-		}
-		select {
-		case r := <-ch:
-			return r, true
-		case <-time.After(10 * time.Second):
-			return result{}, false
-		}
-	}
+	ch := make(chan result, 1)
 	is.Start = x.ctr.Add(1)
-	r, ok := attempt()
-	retried := false
-	for i := 0; !ok && i < 2; i++ { // a time clause: confirm before calling it blocked
-		r, ok = attempt()
-		retried = true
+	go func() {
+		var r result
+		defer func() {
+			if p := recover(); p != nil {
+				r.pan = fmt.Sprint(p)
+			}
+			ch <- r
+		}()
+		r.failed, r.err = s.UpdateContainers(arg)
+	}()
+	var r result
+	if kind == kUpdater {
+		r = <-ch
+	} else {
+		select {
+		case r = <-ch:
+		case <-time.After(10 * time.Second):
+			is.End = x.ctr.Add(1)
+			is.Blocked = true
+			return
+		}
 	}
-	is.Slow = ok && retried
 	is.End = x.ctr.Add(1)
-	if !ok {
-		is.Blocked = true
-		return
-	}
 	is.failed, is.err, is.Panic = r.failed, r.err, r.pan
 	is.Err = shortErr(r.err)
 	if r.err != nil {
@@ -465,47 +514,61 @@ func (x *c19Exec) issue(s stub.Stub, plugin, where string, call C19Call, unstart
 	}
 }
 
+// runC19 executes the plan. Verdicts that hinge on time (a watchdog tripped, or a call made
+// while Start() was in progress failed, which on a healthy tree can only happen when the
+// stub's own 5 s start timer fires first) are confirmed by re-executing the case: a
+// violation only if it fails three times in a row, otherwise the case counts as overloaded.
 func runC19(c C19Case) ev.Outcome {
-	if len(c.Plugins) == 0 || len(c.Plugins) > 8 {
-		return ev.Outcome{Excluded: "plugin-count-out-of-domain"}
-	}
-	for _, idx := range c.Plugins {
-		if !validIdx(idx) {
-			return ev.Outcome{Excluded: "invalid-index"}
+	var o ev.Outcome
+	for attempt := 0; attempt < 3; attempt++ {
+		var timeClause bool
+		o, timeClause = runC19Once(c)
+		if o.Fail == "" || !timeClause {
+			if attempt > 0 && o.Fail == "" {
+				return ev.Outcome{Overloaded: true, Classes: []string{"time-clause-not-confirmed"}, History: o.History}
+			}
+			return o
 		}
+	}
+	return o
+}
+
+func runC19Once(c C19Case) (ev.Outcome, bool) {
+	if len(c.Plugins) == 0 || len(c.Plugins) > 8 {
+		return ev.Outcome{Excluded: "plugin-count-out-of-domain"}, false
+	}
+	var earlyIdx []int
+	for i, p := range c.Plugins {
+		if !validIdx(p.Idx) {
+			return ev.Outcome{Excluded: "invalid-index"}, false
+		}
+		if !p.Late {
+			earlyIdx = append(earlyIdx, i)
+		}
+	}
+	if len(earlyIdx) == 0 {
+		return ev.Outcome{Excluded: "no-plugin-registered-up-front"}, false
 	}
 	rt, err := fx.NewRuntime()
 	if err != nil {
-		return ev.Outcome{Overloaded: true, Classes: []string{"infra:" + shortErr(err)}}
+		return ev.Outcome{Overloaded: true, Classes: []string{"infra:" + shortErr(err)}}, false
 	}
 	x := &c19Exec{c: c, rt: rt, no: c19CaseCtr.Add(1), plans: map[string]C19Call{}}
 	rt.UpdateFn = x.updateFn
 
-	var plugins []*fx.Plugin
-	cleanup := func() {
-		for _, p := range plugins {
-			if p.Stub != nil {
-				p.Stub.Stop()
-			}
-		}
-		rt.Stop()
-	}
-	for i, idx := range c.Plugins {
-		p, synced, closed := x.newPlugin(i, idx)
-		plugins = append(plugins, p)
-		cn := connectAndWait(rt, p, synced, closed, false)
-		if cn.startErr != nil || cn.refused || cn.timedOut {
-			cleanup()
-			return ev.Outcome{Overloaded: true, Classes: []string{fmt.Sprintf("infra:registration failed (%v refused=%v timeout=%v)", cn.startErr, cn.refused, cn.timedOut)}}
-		}
+	live := make([]*c19Live, len(c.Plugins))
+	// phase 1: the plugins that register up front, one after the other
+	for _, i := range earlyIdx {
+		live[i] = x.connect(i, c.Plugins[i])
 	}
 	// the never-started stub
-	idle, _, _ := x.newPlugin(len(plugins), "50")
-	if err := idle.NewStub(rt.Socket, nil); err != nil {
-		cleanup()
-		return ev.Outcome{Overloaded: true, Classes: []string{"infra:" + shortErr(err)}}
+	idle, _, _ := x.newPlugin(len(c.Plugins), C19Plugin{Idx: "50"})
+	if err := idle.p.NewStub(rt.Socket, nil); err != nil {
+		rt.Stop()
+		return ev.Outcome{Overloaded: true, Classes: []string{"infra:" + shortErr(err)}}, false
 	}
 
+	// phase 2: updaters, runtime callers, the unstarted stub and late registrations together
 	start := make(chan struct{})
 	var wg sync.WaitGroup
 	for ui, u := range c.Updaters {
@@ -517,9 +580,12 @@ func runC19(c C19Case) ev.Outcome {
 			if pi < 0 {
 				pi = -pi
 			}
-			p := plugins[pi%len(plugins)]
+			l := live[earlyIdx[pi%len(earlyIdx)]]
+			if !l.ok {
+				return
+			}
 			for ci, call := range u.Calls {
-				x.issue(p.Stub, p.Name, fmt.Sprintf("u%dc%d", ui, ci), call, false, (ui+ci)%2 == 0)
+				x.issue(l.p.Stub, l.p.Name, kUpdater, fmt.Sprintf("u%dc%d", ui, ci), call, (ui+ci)%2 == 0)
 			}
 		}(ui, u)
 	}
@@ -549,25 +615,71 @@ func runC19(c C19Case) ev.Outcome {
 			defer wg.Done()
 			<-start
 			for ci, call := range c.Unstarted {
-				x.issue(idle.Stub, idle.Name, fmt.Sprintf("n%d", ci), call, true, ci%2 == 0)
+				x.issue(idle.p.Stub, idle.p.Name, kUnstarted, fmt.Sprintf("n%d", ci), call, ci%2 == 0)
 			}
 		}()
 	}
+	wg.Add(1)
+	go func() {
+		defer wg.Done()
+		<-start
+		for i, p := range c.Plugins {
+			if p.Late {
+				live[i] = x.connect(i, p)
+			}
+		}
+	}()
 	close(start)
 	done := make(chan struct{})
 	go func() { wg.Wait(); close(done) }()
 	select {
 	case <-done:
 	case <-time.After(120 * time.Second):
-		// not a clause of this property (apart from the unstarted stub, which has its own
-		// watchdog): inconclusive. The goroutines are abandoned.
-		return ev.Outcome{Overloaded: true, Classes: []string{"watchdog"}}
+		// not a clause of this property (the calls that must not block have their own
+		// watchdogs): inconclusive. The goroutines are abandoned.
+		return ev.Outcome{Overloaded: true, Classes: []string{"watchdog"}}, false
 	}
-	cleanup()
+
+	// phase 3: nothing else is in flight any more; updates racing Stop() and after Stop()
+	for i, l := range live {
+		if l == nil || !l.ok {
+			continue
+		}
+		if call := l.spec.RaceStop; call != nil {
+			var rw sync.WaitGroup
+			rw.Add(1)
+			go func() {
+				defer rw.Done()
+				x.issue(l.p.Stub, l.p.Name, kRaceStop, fmt.Sprintf("s%d", i), *call, false)
+			}()
+			if l.spec.RaceStopDelayUs > 0 {
+				time.Sleep(time.Duration(l.spec.RaceStopDelayUs) * time.Microsecond)
+			}
+			l.p.Stub.Stop()
+			rw.Wait()
+		}
+		if len(l.spec.AfterStop) > 0 {
+			l.p.Stub.Stop()
+			for ci, call := range l.spec.AfterStop {
+				x.issue(l.p.Stub, l.p.Name, kAfterStop, fmt.Sprintf("a%dc%d", i, ci), call, false)
+			}
+		}
+	}
+	for _, l := range live {
+		if l != nil && l.p.Stub != nil {
+			l.p.Stub.Stop()
+		}
+	}
+	rt.Stop()
 
 	x.mu.Lock()
 	h := &c19Hist{Seen: x.seen, Issued: x.issued, Requests: x.spans, Overlaps: x.overlaps, Handlers: x.handlers}
 	x.mu.Unlock()
+	for _, l := range live {
+		if l != nil {
+			h.Plugins = append(h.Plugins, l.reg)
+		}
+	}
 	return judgeC19(c, h)
 }
 
@@ -585,16 +697,75 @@ func c19EqualLists(a, b []*api.ContainerUpdate) (bool, string) {
 	return true, ""
 }
 
-func judgeC19(c C19Case, h *c19Hist) ev.Outcome {
-	fail := func(format string, a ...any) ev.Outcome {
+var c19KindText = map[string]string{
+	kUpdater:   "from a goroutine of the running plugin",
+	kConfigure: "from inside the plugin's Configure handler",
+	kSync:      "from inside the plugin's Synchronize handler",
+	kStarting:  "from another goroutine while the plugin's Start() was waiting for Configure to return",
+	kRaceStop:  "concurrently with Stop()",
+	kAfterStop: "after Stop() returned",
+	kUnstarted: "on a never-started stub",
+}
+
+// c19Strict judges a call that must have been delivered: (1) exactly once, unchanged,
+// (2) the callback's answer came back unchanged. Returns "" or the verdict.
+func c19Strict(is *c19Issued, ss []c19Seen, classes map[string]bool) string {
+	what := fmt.Sprintf("update call %s (%d updates, plugin %s, issued %s)", is.Tag, is.N, is.Plugin, c19KindText[is.Kind])
+	if len(ss) != 1 {
+		return fmt.Sprintf("%s reached the runtime's UpdateFn %d times instead of once (the plugin received failed=%v err=%q)", what, len(ss), is.FailedIDs, is.Err)
+	}
+	if ok, why := c19EqualLists(is.sent, ss[0].Args); !ok {
+		return fmt.Sprintf("%s: UpdateFn did not receive the updates the plugin sent: %s", what, why)
+	}
+	call := is.call
+	if call.Err != "" {
+		classes["callback-error"] = true
+		if is.err == nil {
+			return fmt.Sprintf("%s: UpdateFn failed with %q but the plugin received no error (failed list %v)", what, call.Err, is.FailedIDs)
+		}
+		if is.ErrMsg != call.Err {
+			return fmt.Sprintf("%s: UpdateFn failed with %q but the plugin received %q (message %q)", what, call.Err, is.Err, is.ErrMsg)
+		}
+		if len(is.failed) != 0 {
+			if ok, why := c19EqualLists(c19Failed(is.Tag, call), is.failed); !ok {
+				return fmt.Sprintf("%s: together with the error the plugin received a failed list UpdateFn did not return: %s", what, why)
+			}
+		}
+		return ""
+	}
+	if is.err != nil {
+		return fmt.Sprintf("%s: UpdateFn succeeded but the plugin received error %q", what, is.Err)
+	}
+	want := c19Failed(is.Tag, call)
+	if ok, why := c19EqualLists(want, is.failed); !ok {
+		return fmt.Sprintf("%s: UpdateFn returned %d failed updates, the plugin received something else: %s", what, len(want), why)
+	}
+	switch {
+	case len(want) == 0:
+		classes["failed:none"] = true
+	case len(want) == is.N:
+		classes["failed:all"] = true
+	default:
+		classes["failed:some"] = true
+	}
+	if is.N >= 2 {
+		classes["multi-update-call"] = true
+	}
+	return ""
+}
+
+// judgeC19 returns the outcome and whether a failure hinges on time (to be confirmed by
+// re-execution).
+func judgeC19(c C19Case, h *c19Hist) (ev.Outcome, bool) {
+	fail := func(timeClause bool, format string, a ...any) (ev.Outcome, bool) {
 		o := ev.Failf(format, a...)
 		o.History = h
-		return o
+		return o, timeClause
 	}
 	classes := map[string]bool{}
 	// (3) mutual exclusion
 	if len(h.Overlaps) > 0 {
-		return fail("%s", h.Overlaps[0])
+		return fail(false, "%s", h.Overlaps[0])
 	}
 	seenByTag := map[string][]c19Seen{}
 	emptySeen := 0
@@ -607,38 +778,68 @@ func judgeC19(c C19Case, h *c19Hist) ev.Outcome {
 	}
 	emptyIssued := 0
 	issuedTags := map[string]bool{}
-	overloaded := false
 	for _, is := range h.Issued {
-		unstarted := strings.HasPrefix(is.Where, "n")
 		if is.Tag != "" {
 			issuedTags[is.Tag] = true
 		}
-		if unstarted {
-			// (4) no service, promptly
+		if is.Panic != "" {
+			return fail(false, "UpdateContainers (call %s, issued %s) panicked: %s", is.Where, c19KindText[is.Kind], is.Panic)
+		}
+		if is.Blocked {
+			return fail(true, "UpdateContainers (call %s, plugin %s) issued %s did not return within 10 s", is.Where, is.Plugin, c19KindText[is.Kind])
+		}
+		ss := seenByTag[is.Tag]
+		switch is.Kind {
+		case kUnstarted:
+			// (4) no service instead of blocking
 			classes["unstarted-stub"] = true
-			if is.Panic != "" {
-				return fail("UpdateContainers on a never-started stub panicked: %s", is.Panic)
-			}
-			if is.Slow {
-				overloaded = true
-			}
-			if is.Blocked {
-				return fail("UpdateContainers on a never-started stub did not return within 10 s (3 attempts)")
-			}
 			if !is.NoService {
-				return fail("UpdateContainers on a never-started stub returned (%v, %q) instead of stub.ErrNoService", is.FailedIDs, is.Err)
+				return fail(false, "UpdateContainers on a never-started stub returned (%v, %q) instead of stub.ErrNoService", is.FailedIDs, is.Err)
 			}
 			if len(is.failed) != 0 {
-				return fail("UpdateContainers on a never-started stub returned a failed list %v", is.FailedIDs)
+				return fail(false, "UpdateContainers on a never-started stub returned a failed list %v", is.FailedIDs)
 			}
-			if is.Tag != "" && len(seenByTag[is.Tag]) > 0 {
-				return fail("an update sent on a never-started stub reached the runtime's UpdateFn (%s)", is.Tag)
+			if is.Tag != "" && len(ss) > 0 {
+				return fail(false, "an update sent on a never-started stub reached the runtime's UpdateFn (%s)", is.Tag)
 			}
 			continue
+		case kRaceStop, kAfterStop:
+			// the session is going or gone: the call must come back (checked above); it may
+			// have been delivered or not, but not twice, and a success must be a real one
+			classes[is.Kind] = true
+			if len(ss) > 1 {
+				return fail(false, "update call %s issued %s reached the runtime's UpdateFn %d times", is.Tag, c19KindText[is.Kind], len(ss))
+			}
+			switch {
+			case is.err == nil:
+				classes[is.Kind+":delivered"] = true
+				if msg := c19Strict(is, ss, classes); msg != "" {
+					return fail(false, "%s", msg)
+				}
+			case is.NoService:
+				classes[is.Kind+":no-service"] = true
+			default:
+				classes[is.Kind+":error"] = true
+			}
+			continue
+		case kStarting:
+			// Start() in progress: either "no service" or a regular delivery, never blocking
+			classes["during-start"] = true
+			if is.NoService {
+				classes["during-start:no-service"] = true
+				if len(ss) > 0 || len(is.failed) != 0 {
+					return fail(false, "update call %s issued %s returned ErrNoService but reached UpdateFn %d times (failed list %v)", is.Tag, c19KindText[is.Kind], len(ss), is.FailedIDs)
+				}
+				continue
+			}
+			classes["during-start:delivered"] = true
+		case kConfigure:
+			classes["in-configure"] = true
+		case kSync:
+			classes["in-synchronize"] = true
 		}
-		if is.Panic != "" {
-			return fail("UpdateContainers call %s panicked: %s", is.Where, is.Panic)
-		}
+		// a registered plugin's update: delivered exactly once, answered unchanged
+		timeClause := is.Kind == kConfigure || is.Kind == kStarting
 		if is.N == 0 {
 			// untagged: judged by count below, and by the case-wide answer
 			emptyIssued++
@@ -646,78 +847,48 @@ func judgeC19(c C19Case, h *c19Hist) ev.Outcome {
 			switch c.EmptyMode {
 			case 0:
 				if is.err != nil || len(is.failed) != 0 {
-					return fail("empty update list (call %s): UpdateFn returned (nil, nil) but the plugin received (%v, %q)", is.Where, is.FailedIDs, is.Err)
+					return fail(timeClause, "empty update list (call %s, issued %s): UpdateFn returned (nil, nil) but the plugin received (%v, %q)", is.Where, c19KindText[is.Kind], is.FailedIDs, is.Err)
 				}
 			case 1:
 				if is.err != nil || len(is.failed) != 1 || !proto.Equal(is.failed[0], &api.ContainerUpdate{ContainerId: c19EmptyMarker}) {
-					return fail("empty update list (call %s): UpdateFn returned one failed marker update but the plugin received (%v, %q)", is.Where, is.FailedIDs, is.Err)
+					return fail(timeClause, "empty update list (call %s, issued %s): UpdateFn returned one failed marker update but the plugin received (%v, %q)", is.Where, c19KindText[is.Kind], is.FailedIDs, is.Err)
 				}
 			case 2:
 				if is.err == nil || is.ErrMsg != c19EmptyErr {
-					return fail("empty update list (call %s): UpdateFn failed with %q but the plugin received error %q (message %q)", is.Where, c19EmptyErr, is.Err, is.ErrMsg)
+					return fail(timeClause, "empty update list (call %s, issued %s): UpdateFn failed with %q but the plugin received error %q (message %q)", is.Where, c19KindText[is.Kind], c19EmptyErr, is.Err, is.ErrMsg)
 				}
 			}
 			continue
 		}
-		// (1) exactly once, unchanged
-		ss := seenByTag[is.Tag]
-		if len(ss) != 1 {
-			return fail("update call %s (%d updates, plugin %s) reached the runtime's UpdateFn %d times instead of once", is.Tag, is.N, is.Plugin, len(ss))
-		}
-		if ok, why := c19EqualLists(is.sent, ss[0].Args); !ok {
-			return fail("update call %s: UpdateFn did not receive the updates the plugin sent: %s", is.Tag, why)
-		}
-		// (2) the answer
-		call := is.call
-		if call.Err != "" {
-			classes["callback-error"] = true
-			if is.err == nil {
-				return fail("update call %s: UpdateFn failed with %q but the plugin received no error (failed list %v)", is.Tag, call.Err, is.FailedIDs)
-			}
-			if is.ErrMsg != call.Err {
-				return fail("update call %s: UpdateFn failed with %q but the plugin received %q (message %q)", is.Tag, call.Err, is.Err, is.ErrMsg)
-			}
-			if len(is.failed) != 0 {
-				if ok, why := c19EqualLists(c19Failed(is.Tag, call), is.failed); !ok {
-					return fail("update call %s: together with the error the plugin received a failed list UpdateFn did not return: %s", is.Tag, why)
-				}
-			}
-			continue
-		}
-		if is.err != nil {
-			return fail("update call %s: UpdateFn succeeded but the plugin received error %q", is.Tag, is.Err)
-		}
-		want := c19Failed(is.Tag, call)
-		if ok, why := c19EqualLists(want, is.failed); !ok {
-			return fail("update call %s: UpdateFn returned %d failed updates, the plugin received something else: %s", is.Tag, len(want), why)
-		}
-		switch {
-		case len(want) == 0:
-			classes["failed:none"] = true
-		case len(want) == is.N:
-			classes["failed:all"] = true
-		default:
-			classes["failed:some"] = true
-		}
-		if is.N >= 2 {
-			classes["multi-update-call"] = true
+		if msg := c19Strict(is, ss, classes); msg != "" {
+			return fail(timeClause, "%s", msg)
 		}
 	}
 	for tag, ss := range seenByTag {
 		if !issuedTags[tag] {
-			return fail("the runtime's UpdateFn was called with updates nobody sent (first container id %q)", ss[0].IDs[0])
+			return fail(false, "the runtime's UpdateFn was called with updates nobody sent (first container id %q)", ss[0].IDs[0])
 		}
 	}
 	if emptySeen != emptyIssued {
-		return fail("%d empty update lists were sent, UpdateFn was called %d times with an empty list", emptyIssued, emptySeen)
+		return fail(false, "%d empty update lists were sent, UpdateFn was called %d times with an empty list", emptyIssued, emptySeen)
+	}
+	// every registration of this property is well-formed; one that did not complete although
+	// no clause above was violated is not this property's finding
+	for _, p := range h.Plugins {
+		if p.StartErr != "" || p.Refused || p.TimedOut {
+			return ev.Outcome{Overloaded: true, History: h, Classes: []string{"infra:registration-failed"}}, false
+		}
+		if p.Late {
+			classes["late-registration"] = true
+		}
 	}
 
 	// non-triviality: an update call in flight together with another one or with a request
-	out := ev.Outcome{Overloaded: overloaded}
+	out := ev.Outcome{}
 	type span struct{ s, e int64 }
 	var ups, reqs []span
 	for _, is := range h.Issued {
-		if !strings.HasPrefix(is.Where, "n") {
+		if is.Kind != kUnstarted {
 			ups = append(ups, span{is.Start, is.End})
 		}
 	}
@@ -757,7 +928,7 @@ func judgeC19(c C19Case, h *c19Hist) ev.Outcome {
 	}
 	sort.Strings(ks)
 	out.Classes = append(out.Classes, ks...)
-	return out
+	return out, false
 }
 
 func TestProp_C19(t *testing.T) { ev.Run(t, "C19", genC19, runC19) }
